@@ -154,15 +154,31 @@ class Program:
         return [s.kind for s in self.steps]
 
 
+class RawProgram(Program):
+    """hand-built program: the PRQL text and the reference term are given directly (directed families whose shape the
+    step generator does not produce, e.g. a let-bound relation referenced twice)"""
+    def __init__(self, kinds, text, model, ordered, final_cols, meta=None):
+        super().__init__([Step(k, "", "") for k in kinds], ordered, final_cols, meta)
+        self._text, self._model = text, model
+
+    def prql(self, header=None):
+        return ("prql target:%s\n" % header if header else "") + self._text
+
+    def model_expr(self, inst):
+        return self._model(inst)
+
+
 class Gen:
     """Random program generator.  Frame tracking: cols = [(qualifier|None, name)] visible columns;
     order = sort keys in effect (or None); uniq = an expression that is a unique non-null key of the
     current relation (or None): positional transforms (take, lag, row_number…) are only generated
     while the order in effect ends in a unique key, so that the documented meaning is deterministic."""
 
-    def __init__(self, rng, weights=None, max_steps=6, expr_depth=2, ops=None, lets=0.0):
+    def __init__(self, rng, weights=None, max_steps=6, expr_depth=2, ops=None, lets=0.0, rsub=0.0, distinct_n=0.0):
         self.r = rng
         self.lets = lets
+        self.distinct_n = distinct_n   # probability that a whole-row group takes n >= 2 rows instead of 1
+        self.rsub = rsub     # probability that a 1:1 join's relational argument is a sorted pipeline of its own
         self.fresh = 0
         self.w = {"join": 1.2, "derive": 2, "select": 1.5, "filter": 2.2, "sort": 2, "take": 1.5, "aggregate": 0.7, "group_agg": 0.9,
                   "group_take": 0.8, "group_win": 0.8, "win": 1.0, "distinct": 0.5, "append": 0.25, "alljoin": 0.0}
@@ -319,7 +335,14 @@ class Gen:
             coq = "TJoinX %s %d%%N L_COLS U_COLS U_TABLE %s" % (side, nid("u"), coq_expr(on))
         else:
             coq = "TJoin %s %d%%N U_COLS U_TABLE %s" % (side, nid("u"), coq_expr(on))
-        return Step("join", "join %su (%s)" % (sidetxt, prql_expr(on)), coq, side=side, one_to_one=one_to_one)
+        # the relational argument as a pipeline of its own with a sort: the argument's order is not the left
+        # input's (join retains the LEFT order), so the reference term is unchanged; only with a 1:1 condition,
+        # where the order of the right side cannot show in the order of the matches of one left row
+        rsub, utxt = None, "u"
+        if one_to_one and self.rsub and r.random() < self.rsub:
+            rsub = [(r.random() < 0.5, ("col", None, c)) for c in r.sample(TABLES["u"], r.choice([1, 2, 2, 3]))]
+            utxt = "u=(from u | sort %s)" % prql_keys(rsub)
+        return Step("join", "join %s%s (%s)" % (sidetxt, utxt, prql_expr(on)), coq, side=side, one_to_one=one_to_one, rsub=rsub)
 
     def t_alljoin(self, st):
         """join on ALL columns of both (narrowed) sides, keeping only the left columns: the shape the back end may
@@ -562,6 +585,11 @@ class Gen:
         st["cols"] = [(None, c) for _, c in keep]
         st["order"] = None
         st["uniq"] = None
+        if self.distinct_n and self.r.random() < self.distinct_n:
+            # the first n (>= 2) rows of every group of identical rows: NOT a distinct
+            k = self.r.randint(2, 3)
+            return Step("distinct", "group {%s} (take %d)" % (", ".join(c for _, c in keep), k),
+                        "TGroupTake %s [] None (Some (%d))" % (coq_names([c for _, c in keep]), k), take_n=k)
         return Step("distinct", "group {%s} (take 1)" % ", ".join(c for _, c in keep), "TDistinct")
 
     def t_append(self, st):
